@@ -49,6 +49,7 @@ from .. import exportgen as G
 from .. import exportworld as W
 from .. import export_runner as R
 from .. import exportvals as V
+from .. import exportscope as S
 from ..impl import mx, close_all, quiet, err_kind
 
 
@@ -517,7 +518,8 @@ def trigger_key(case, q):
     if path is None:
         # replayed query without generator metadata: the attribute steps are the static path
         path = [st["attr"] for st in q["sp"] if "attr" in st]
-    keys = case.triggers.get(".".join(path), set())
+    keys = set(case.triggers.get(".".join(path), set()))
+    keys |= G.query_triggers(case.desc, q["sp"], _find_src(case.desc, path, q["cells"]))
     if len(keys) == 1:
         return next(iter(keys))
     return None
@@ -565,8 +567,8 @@ def compare(case, rec, out, stats, samples):
             what = "C15: exported package returns a different value"
         if key:
             what += " [" + key + "]"
-        out.fail(what, hist(q), detail={"model": exp, "exported": got, "cells_source":
-                                        _find_src(desc, q.get("_path") or [], q["cells"])}, key=key)
+        out.fail(what, hist(q), detail={"model": exp, "exported": got, "cells_source": _find_src(
+            desc, q.get("_path") or [st["attr"] for st in q["sp"] if "attr" in st], q["cells"])}, key=key)
 
 
 def run_batch(ctx, cases, out, stats, samples, rngs=None, fixed=None):
@@ -618,7 +620,12 @@ def run_batch(ctx, cases, out, stats, samples, rngs=None, fixed=None):
                     exp_m, got_e = obs
                     stats["look_decisions"] += 1
                     parts = dict(p.split("=", 1) for p in mo.replace("exp=", "|exp=").replace(" mx=", "|mx=").split("|") if p)
-                    if res_of(exp_m) == "err":
+                    if parts.get("exp") == "unbound" and parts.get("mx") == "unbound" and \
+                            line.split(" ")[1] in G.ALL_BUILTINS:
+                        # neither chain binds the name and it is a built-in: what happens then is the subject of
+                        # the rewriting decision (`rw`), not of the chain order
+                        stats["look_skipped_builtin_fallback"] = stats.get("look_skipped_builtin_fallback", 0) + 1
+                    elif res_of(exp_m) == "err":
                         # modelx failed for a reason other than an unbound name (e.g. its own ItemSpace
                         # construction raised): nothing to compare the chain model with
                         stats["look_skipped_model_error"] = stats.get("look_skipped_model_error", 0) + 1
@@ -685,6 +692,19 @@ def run(ctx, out):
     for k in range(0, len(mcases), batch):
         run_batch(ctx, mcases[k:k + batch], out, stats, samples, rngs=mrngs[k:k + batch])
     motif_compared = stats["compared"] - before_m
+    # the scoping family: every template on every run, for a rotating choice of name kinds (all of them in the
+    # thorough tier), plus a seed-dependent tail of random scope expressions
+    before_s, raises_s = stats["compared"], stats["model_raises"]
+    scope_formulas = 0
+    if not os.environ.get("VERIF_C15_NO_SCOPE"):
+        fam = S.family(ctx.rng("scope"), n_random=ctx.n(34, 510), per_template=ctx.n(3, None), rotation=ctx.seed)
+        for label, d, qs in fam:
+            d = dict(d, name="S%d" % idx)
+            scope_formulas += len(qs)
+            run_batch(ctx, [Case(idx, d, "scope/" + label)], out, stats, samples, fixed=[qs])
+            idx += 1
+    scope_compared = stats["compared"] - before_s
+    scope_raises = stats["model_raises"] - raises_s
     programs = set()
     nontrivial = 0
     skipped_trigger = 0
@@ -721,6 +741,9 @@ def run(ctx, out):
         "corpus_cases": len(corpus),
         "motif_models": len(mcases),
         "motif_values_compared": motif_compared,
+        "scope_family": {"formulas": scope_formulas, "values_compared": scope_compared,
+                         "model_raises_not_compared": scope_raises, "templates": len(S.TEMPLATES),
+                         "contexts": len(S.CONTEXTS), "name_kinds": S.N_KINDS},
         "value_kinds": [k.id for k in V.KINDS],
         "input_distribution": {"profiles": profiles, "features": features, "counters": stats,
                                "models_skipped_for_known_trigger": skipped_trigger},
